@@ -120,6 +120,9 @@ S_<TN_, TA_, TH_>::deepPreUpdate(FullControl& control) noexcept {
 
 	ScopedOrigin origin{control, STATE_ID};
 
+	// report this state's own status only, not what other states of the region reported before
+	control._taskStatus.clear();
+
 	Head::widePreUpdate(control);
 	Head::	  preUpdate(control);
 
@@ -137,6 +140,9 @@ S_<TN_, TA_, TH_>::deepUpdate(FullControl& control) noexcept {
 
 	ScopedOrigin origin{control, STATE_ID};
 
+	// report this state's own status only, not what other states of the region reported before
+	control._taskStatus.clear();
+
 	Head::wideUpdate(control);
 	Head::	  update(control);
 
@@ -153,6 +159,9 @@ S_<TN_, TA_, TH_>::deepPostUpdate(FullControl& control) noexcept {
 						   Method::POST_UPDATE);
 
 	ScopedOrigin origin{control, STATE_ID};
+
+	// report this state's own status only, not what other states of the region reported before
+	control._taskStatus.clear();
 
 	Head::	  postUpdate(control);
 	Head::widePostUpdate(control);
@@ -179,6 +188,9 @@ S_<TN_, TA_, TH_>::deepPreReact(EventControl& control,
 
 	ScopedOrigin origin{control, STATE_ID};
 
+	// report this state's own status only, not what other states of the region reported before
+	control._taskStatus.clear();
+
 	Head::widePreReact(event, control);
 	(this->*method) (event, control);
 
@@ -204,6 +216,9 @@ S_<TN_, TA_, TH_>::deepReact(EventControl& control,
 
 	ScopedOrigin origin{control, STATE_ID};
 
+	// report this state's own status only, not what other states of the region reported before
+	control._taskStatus.clear();
+
 	Head::wideReact(event, control);
 	(this->*method)(event, control);
 
@@ -228,6 +243,9 @@ S_<TN_, TA_, TH_>::deepPostReact(EventControl& control,
 						   Method::POST_REACT);
 
 	ScopedOrigin origin{control, STATE_ID};
+
+	// report this state's own status only, not what other states of the region reported before
+	control._taskStatus.clear();
 
 	(this->*method)	   (event, control);
 	Head::widePostReact(event, control);
